@@ -249,4 +249,8 @@ static void _skip_bytes(binson_parser *parser, size_t size)
 
     /* Equal prefix""")],
      'expect': {'C07': '_cmp_name can answer'}},
+    {'name': 'write_rejects_exact_fit', 'edits': [(W, "    if (c > writer->buffer_size) {", "    if (c >= writer->buffer_size) {")],
+     'expect': {'C04': 'although the piece fits'}},
+    {'name': 'write_copies_one_less', 'edits': [(W, "memmove(&writer->buffer[writer->buffer_used], data->bptr, data->bsize);", "memmove(&writer->buffer[writer->buffer_used], data->bptr, data->bsize > 0 ? data->bsize - 1 : 0);")],
+     'expect': {'C04': 'not stored as one contiguous copy'}},
 ]
